@@ -30,11 +30,15 @@ MinOf(S) == CHOOSE x \in S : \A y \in S : x <= y
 (* ------------------------------------------------------------------------------------------------------------ *)
 (* IMPL layer: pptx/oxml/xmlchemy.py                                                                              *)
 
-\* BaseOxmlElement.first_child_found_in(*tagnames):   for tagname in tagnames: child = self.find(qn(tagname));
-\*                                                      if child is not None: return child
-\* i.e. the FIRST TAG NAME of the tuple that has any match decides, and `find` returns that tag's first child in
-\* document order - not the first matching child in document order.  0 = None.
+\* BaseOxmlElement.first_child_found_in(*tagnames) as repaired by /repo commit bec7247c:
+\*     tags = {qn(t) for t in tagnames};  for child in self: if child.tag in tags: return child
+\* i.e. the first matching CHILD in document order.  (The pinned code iterated the tag NAMES in tuple order and returned the
+\* first name that had any match; FirstChildFoundInByName keeps that transcription: it is what produced
+\* [a:br, a:pPr, a:r] and is counted as drift if the code ever goes back to it.)   0 = None.
 FirstChildFoundIn(kids, tagnames) ==
+  LET hit == {i \in DOMAIN kids : InSeq(tagnames, kids[i])}
+  IN IF hit = {} THEN 0 ELSE MinOf(hit)
+FirstChildFoundInByName(kids, tagnames) ==
   LET hit == {j \in DOMAIN tagnames : Has(kids, tagnames[j])}
   IN IF hit = {} THEN 0
      ELSE LET tn == tagnames[MinOf(hit)] IN MinOf({i \in DOMAIN kids : kids[i] = tn})
